@@ -28,6 +28,10 @@ macro_rules! aw {
 pub fn tasks_spawned() -> Option<usize> {
     Some(tokio::model_tasks::spawned())
 }
+/// let every spawned task run to completion
+pub fn run_tasks() {
+    while tokio::model_tasks::run_next() {}
+}
 include!("/verif/kani/proto/src/body.rs");
 
 #[cfg(kani)]
